@@ -188,6 +188,9 @@ def obligations(tier, seed):
     for (w, s) in ((2, 2), (3, 3), (1, 1)):
         for n in (3, 4, 5):
             obs.append(Ob(PROP, 'runs', dict(ctx='after', w=w, s=s, n=n), budget=120 if q else 600, bound=dict(w=w, s=s, items=n, ctx='after')))
+    for (w, s, n) in ((8, 8, 17), (9, 8, 26), (16, 5, 33), (17, 16, 35), (32, 3, 40), (7, 2, 30), (12, 12, 25), (5, 9, 30)) if q else \
+            ((8, 8, 17), (9, 8, 26), (16, 5, 33), (17, 16, 35), (32, 3, 40), (7, 2, 30), (12, 12, 25), (5, 9, 30), (33, 32, 70), (64, 7, 80), (10, 1, 40), (3, 1, 64), (2, 2, 65)):
+        obs.append(Ob(PROP, 'runs', dict(ctx='root', w=w, s=s, n=n), budget=240 if q else 900, group='long runs (value-independent control flow: one path)', bound=dict(w=w, s=s, items=n, values='any int')))
     gi = 6 if q else 12
     for w in range(1, gi + 1):
         for s in range(1, gi + 1):
